@@ -17,8 +17,9 @@ CASE_TIMEOUT = 20
 
 THEOREMS = ["C08_member_iff", "C08_member_iff_halo", "C08_partitions", "C08_partition_members",
             "C08_upper_ascending", "C08_lossless", "C08_relative", "C08_ranges_tile", "C08_ranges_nested",
-            "C08_nonuniform_model", "C08_position_partial", "C08_uniform_bounds",
-            "C08_uniform_bounds_ascending", "C08_uniform_candidates_partial", "C08_model_meets_spec_partial"]
+            "C08_nonuniform_model", "C08_iter_active", "C08_equal_bounds", "C08_unequal_bounds",
+            "C08_position_model", "C08_uniform_bounds", "C08_uniform_bounds_ascending",
+            "C08_uniform_candidates", "C08_uniform_model", "C08_resplit_wf", "C08_model_meets_spec"]
 
 RULE = ("case = (split kind uniform/nonuniform/equal/unequal/truediv/floordiv with its argument, halo sizes "
         "0-3, relativeCoords, operand tree of depth 1-3 incl. explicit defaults and empty sub-fibers, leaf "
